@@ -31,10 +31,16 @@ Proof. rewrite write_overwrite. reflexivity. Qed.
 Lemma refused_unchanged ow app t s s' r : write ow app t s = (s', r) -> r <> WOk -> s' = s.
 Proof.
   unfold write. destruct s as [old|]; [|intros H; injection H as <- <-; congruence].
-  destruct app.
+  destruct app, ow; cbn [andb].
+  - intros H; injection H as <- <-; congruence.
   - destruct (hdr_eqb (t_hdr old) (t_hdr t) && meta_eqb (t_meta old) (t_meta t)); intros H; injection H as <- <-; congruence.
-  - destruct ow; intros H; injection H as <- <-; congruence.
+  - intros H; injection H as <- <-; congruence.
+  - intros H; injection H as <- <-; congruence.
 Qed.
+
+(* both flags: the table is replaced, whatever was there *)
+Lemma write_both_flags t s : write true true t s = (Some t, WOk).
+Proof. destruct s; reflexivity. Qed.
 
 (* an append is accepted iff header (names, order, units) and metadata agree; then rows are concatenated *)
 Lemma append_spec t old :
